@@ -396,15 +396,30 @@ def promote_zeros(eng, rounds=2, maxdeg=6):
             for m in h:
                 if m and all(e % 2 == 0 for _, e in m) and mono_deg(m) <= maxdeg:
                     seeds.add(m)
+    # monomials  e * v  with e an even-power monomial and v the Rabinowitsch inverse of a quantity that is >= 0 on the path
+    # (then v > 0, so  e * v <= 0  forces e = 0): candidates are collected here, positivity is decided by the solver below
+    inv_of = {}
+    for key, iv in getattr(eng, 'invs', {}).items():
+        (mv, _), = iv.t.items()
+        inv_of[mv[0][0]] = dict(key)
+    semi = {}
+    for a in eng.atoms:
+        if is_int_poly(a.p) or a.op not in ('<', '<=', '=='):
+            continue
+        for m in a.p:
+            odd = [(v, e) for v, e in m if e % 2]
+            if len(odd) == 1 and odd[0][1] == 1 and odd[0][0] in inv_of and len(m) > 1:
+                semi[m] = (odd[0][0], tuple((v, e) for v, e in m if v != odd[0][0]))
     done = getattr(eng, '_promoted', set())
     seeds -= done
-    if not seeds:
+    semi = {m: x for m, x in semi.items() if m not in done}
+    if not seeds and not semi:
         return 0
     hyps = [h for h in eng.hyps if h]
     lin = Lin()
     s = z3.SolverFor('QF_LRA')
     s.set('timeout', 20000)
-    prods, _ = _saturate(hyps, seeds, rounds, maxdeg, 20000)
+    prods, _ = _saturate(hyps, seeds | set(semi), rounds, maxdeg, 20000)
     for p in prods:
         s.add(lin.rexpr(p) == 0)
     for h in hyps:
@@ -413,6 +428,7 @@ def promote_zeros(eng, rounds=2, maxdeg=6):
         if not is_int_poly(a.p) and a.op != '==':
             s.add(Lin.rel(lin.rexpr(a.p), a.op))
     exprs = {m: lin.mon(m) for m in seeds}
+    semi_exprs = {m: (lin.mon(m), lin.rexpr(inv_of[v]), e) for m, (v, e) in semi.items()}
     for x in lin.fresh_nonneg:
         s.add(x >= 0)
     lin.fresh_nonneg = []
@@ -427,6 +443,24 @@ def promote_zeros(eng, rounds=2, maxdeg=6):
                 eng.rsolver.add(eng.lin.mon(cur) == 0)
                 if all(e % 2 == 0 for _, e in cur):
                     cur = tuple((v, e // 2) for v, e in cur)
+                else:
+                    break
+    for m, (x, q, e) in semi_exprs.items():
+        for y in lin.fresh_nonneg:
+            s.add(y >= 0)
+        lin.fresh_nonneg = []
+        if s.check(q < 0) == z3.unsat and s.check(x > 0) == z3.unsat:
+            # q >= 0 and q * v = 1  =>  v > 0;  e * v <= 0  =>  e <= 0  =>  e = 0 (even-power monomial), hence m = 0
+            n += 1
+            done.add(m)
+            eng.hyps.append({m: 1}); eng.hyp_tags.append('promoted')
+            eng.rsolver.add(eng.lin.mon(m) == 0)
+            cur = e
+            while cur:
+                eng.hyps.append({cur: 1}); eng.hyp_tags.append('promoted')
+                eng.rsolver.add(eng.lin.mon(cur) == 0)
+                if all(k % 2 == 0 for _, k in cur):
+                    cur = tuple((v, k // 2) for v, k in cur)
                 else:
                     break
     eng._promoted = done
